@@ -244,6 +244,12 @@ def trimming_oracle(orig, ai, info0, strict_internal=True):
                     return "%s moved to %d, expected %d (retained exon end + transcript offset)" % (name, new, exp)
             elif not (ex[-1][0] <= new <= ex[-1][1] + tot_r + 40):
                 return "%s moved to %d, not on/after retained exon %s" % (name, new, ex[-1])
+            elif name == "external_polya_pos" and old > orig[-1][1]:
+                # a tail found in the soft clip keeps its distance (in read bases) from the retained exon: the removed exon bases
+                # plus its offset into the clip
+                exp = ex[-1][1] + tot_r + (old - orig[-1][1] - 1)
+                if new != exp:
+                    return "%s in the soft clip moved to %d, expected %d (retained end + removed bases + offset into the clip)" % (name, new, exp)
     if rem_left:
         for name, old, new, strict in (("internal_polyt_pos", info0[3], pi.internal_polyt_pos, strict_internal),
                                        ("external_polyt_pos", info0[1], pi.external_polyt_pos, False)):
@@ -257,6 +263,10 @@ def trimming_oracle(orig, ai, info0, strict_internal=True):
                     return "%s moved to %d, expected %d (retained exon start - transcript offset)" % (name, new, exp)
             elif not (ex[0][0] - tot_l - 40 <= new <= ex[0][1]):
                 return "%s moved to %d, not on/before retained exon %s" % (name, new, ex[0])
+            elif name == "external_polyt_pos" and old < orig[0][0]:
+                exp = ex[0][0] - tot_l - (orig[0][0] - old - 1)
+                if new != exp:
+                    return "%s in the soft clip moved to %d, expected %d (retained start - removed bases - offset into the clip)" % (name, new, exp)
     return None
 
 
